@@ -100,7 +100,7 @@ FSel(lazy) == UNION { Wrappers(Rule(s, Red)) : s \in SelFew \cup SelNested(0) } 
 
 -----------------------------------------------------------------------------
 (* values and numbers: n indexes the harness's numeric pool *)
-Pool == (1..28) \cup {31, 32, 33}
+Pool == (1..28) \cup {31, 32, 33, 34}       \* 34: an explicitly signed zero
 ValShapes(d) == { <<d>>, <<Num(2, FALSE), [d EXCEPT !.w = TRUE]>>, <<d, Dim(3, "px", TRUE)>>,
                   <<Fn("calc", <<d, Dl("+", TRUE), Dim(3, "px", TRUE)>>, FALSE)>>,
                   <<Fn("calc", <<Dim(3, "px", FALSE), Dl("-", TRUE), [d EXCEPT !.w = TRUE]>>, FALSE)>>,
@@ -117,7 +117,8 @@ FVal(lazy) == UNION { { <<Rule(<<Dl(".", FALSE), I("a", FALSE)>>, <<Decl(p, v)>>
         \cup { <<At("font-face", <<>>, "decls", <<Decl("font-family", <<Str("F", FALSE)>>), Decl("size-adjust", <<d>>)>>)>> : d \in UNION { NumToks(n) : n \in 1..6 } }
         \cup { <<At("keyframes", <<I("k", TRUE)>>, "keyframes", <<Frame(<<I("from", FALSE)>>, <<Decl("left", <<d>>)>>), Frame(<<Pct(4, FALSE)>>, <<Decl("left", <<d>>)>>)>>)>> :
                  d \in UNION { NumToks(n) : n \in 1..6 } }
-        \cup { <<Rule(<<I("li", FALSE), Col(FALSE), Fn("nth-child", <<Dim(29, "n", FALSE), Num(30, FALSE)>>, FALSE)>>, <<Decl("z-index", <<Num(n, FALSE)>>)>>)>> : n \in Pool }
+        \cup { <<Rule(<<I("li", FALSE), Col(FALSE), Fn("nth-child", <<Dim(29, "n", FALSE), Num(b, FALSE)>>, FALSE)>>, <<Decl("z-index", <<Num(n, FALSE)>>)>>)>> :
+                 n \in Pool, b \in {30, 34, 27} }      \* An+B with B spelled +1, +0, +26
 
 (* calc(): every operand kind on either side of every operator, at the top of calc(), inside parentheses and inside
    functions nested in it, with the operator's white space present (where css-values requires it, around + and -)
